@@ -28,7 +28,12 @@ const (
 	FlNoAnswer             // handler blocks until the world shuts down
 	FlBadReply             // reply cannot be encoded (handler returns a reply whose Marshal fails)
 	FlYield                // handler passes several scheduling points
+	FlEmpty                // handler returns the zero message (0 bytes under the pb and bytes codecs, like an all-default protobuf message)
 )
+
+func (m *Msg) isZero() bool {
+	return m.ID == 0 && m.Flags == 0 && m.Server == 0 && m.N == 0 && m.Arg == 0 && len(m.Pad) == 0
+}
 
 var errShort = errors.New("msg: short buffer")
 
@@ -95,10 +100,20 @@ func (m *Msg) Unmarshal(data []byte) (uint64, error) {
 // rpc.Code and rpc.GoGoProtobuf clash on Marshal/Unmarshal, so it is a distinct type).
 type PBMsg Msg
 
-func (m *PBMsg) Size() int { return (*Msg)(m).size() + binary.MaxVarintLen64 }
+// Like protobuf, the all-default message encodes to zero bytes and decoding merges into the
+// receiver (an empty body leaves it as the caller supplied it).
+func (m *PBMsg) Size() int {
+	if (*Msg)(m).isZero() {
+		return 0
+	}
+	return (*Msg)(m).size() + binary.MaxVarintLen64
+}
 func (m *PBMsg) Marshal() ([]byte, error) {
 	if m.ID == badMarshalID {
 		return nil, errBadMarshal
+	}
+	if (*Msg)(m).isZero() {
+		return []byte{}, nil
 	}
 	buf := make([]byte, m.Size())
 	n := (*Msg)(m).put(buf)
@@ -108,9 +123,15 @@ func (m *PBMsg) MarshalTo(buf []byte) (int, error) {
 	if m.ID == badMarshalID {
 		return 0, errBadMarshal
 	}
+	if (*Msg)(m).isZero() {
+		return 0, nil
+	}
 	return (*Msg)(m).put(buf), nil
 }
 func (m *PBMsg) Unmarshal(data []byte) error {
+	if len(data) == 0 {
+		return nil
+	}
 	_, err := (*Msg)(m).get(data)
 	return err
 }
